@@ -1,2 +1,5 @@
 import MpdProofs.Lemmas.Bytes
 import MpdProofs.C20
+import MpdProofs.Lemmas.Song
+import MpdProofs.C14
+import MpdProofs.C12Song
